@@ -337,7 +337,9 @@ TraceBatch ==
   /\ \/ \E i \in 1 .. Len(pool) : pool[i].degen          \* a member hit a zero challenge: nothing is demanded
      \/ /\ Len(pool) = Ev.n /\ Len(Ev.alphas) = Ev.n
         \* exactly one weight per instance is drawn - after every instance's scalars were computed, so none on an early error
-        /\ Ev.rng_bytes = (IF \E i \in 1 .. Len(pool) : pool[i].alg = << >> THEN 0 ELSE Ev.rng_bytes_expected)
+        /\ IF \E i \in 1 .. Len(pool) : pool[i].alg = << >>
+           THEN Ev.rng_bytes \in {0, Ev.rng_bytes_expected}      \* (whether weights are drawn before an early error is found is not stated)
+           ELSE Ev.rng_bytes = Ev.rng_bytes_expected
         \* the batch accepts exactly when every member was accepted on its own (the members' own recorded verdicts), or - a small-group
         \* coincidence - exactly as the specification's weighted sum of the members' residuals says
         /\ \/ (Ev.res = "ok") <=> (\A i \in 1 .. Len(pool) : pool[i].ores = "ok")
